@@ -104,6 +104,41 @@ SplitGroupOk(ev, g)    == Ok(g) /\ g.k = "pieces" /\ g.v = Split(ev.s, ev.sep, e
 TokenizeGroupOk(ev, g) == Ok(g) /\ g.k = "tokens" /\ g.v = Tokenize(ev.s, ev.ds)
 ReplaceGroupOk(ev, g)  == Ok(g) /\ g.k = "rep" /\ g.v = Replace(ev.s, ev.from, ev.to, CI(ev))
 
+(* ---- X01: beyond the listed properties - element access, iteration, fill, boolean text *)
+Rev(q) == [k \in 1..Len(q) |-> q[Len(q) + 1 - k]]
+AccessGroupOk(ev, g) ==
+    LET n == Len(ev.s)
+        small == IsSmall(ev.idx) /\ ~IsNeg(ev.idx)
+        i == IF small THEN SmallVal(ev.idx) ELSE 0 IN
+    CASE g.k = "at"    -> IF small /\ i < n THEN Ok(g) /\ g.v = ev.s[i + 1] ELSE g.res = "std::out_of_range"
+      [] g.k = "index" -> Ok(g) /\ small /\ i <= n /\ g.v = (IF i < n THEN ev.s[i + 1] ELSE 0)      \* [size()] is the terminator
+      [] g.k = "front" -> Ok(g) /\ g.v = (IF n = 0 THEN 0 ELSE ev.s[1])
+      [] g.k = "back"  -> Ok(g) /\ g.v = (IF n = 0 THEN 0 ELSE ev.s[n])
+      [] g.k = "iter"  -> Ok(g) /\ g.v = ev.s
+      [] g.k = "riter" -> Ok(g) /\ g.v = Rev(ev.s)
+      [] g.k = "size"  -> Ok(g) /\ g.v = n
+      [] g.k = "empty" -> Ok(g) /\ g.v = B(n = 0)
+      [] OTHER -> FALSE
+(* (ST::string::fill validates its result like any other construction from bytes: a run of a byte >= 0x80 is *)
+(* not UTF-8 and may be refused with unicode_error; the buffer forms have no such notion)                    *)
+FillGroupOk(ev, g) ==
+    /\ g.k = "fill"
+    /\ \/ Ok(g) /\ g.v = [k \in 1..ev.n |-> ev.ch]
+       \/ g.res = "unicode_error" /\ ev.ch >= 128 /\ ev.n > 0 /\ g.f = <<"string::fill(n,c)">>
+TrueText == <<116, 114, 117, 101>>
+FalseText == <<102, 97, 108, 115, 101>>
+BoolGroupOk(ev, g) ==
+    LET f == FoldSeq(ev.s)
+        word == f = TrueText \/ f = FalseText
+        v == IF f = TrueText THEN 1 ELSE IF f = FalseText THEN 0 ELSE ev.libc_nonzero
+        ok == IF word THEN 1 ELSE B(ev.consumed > 0)
+        full == IF word THEN 1 ELSE B(ev.consumed = Len(ev.s))
+    IN /\ Ok(g)
+       /\ CASE g.k = "val"  -> g.v = v
+            [] g.k = "valr" -> g.v = <<v, ok, full>>
+            [] g.k = "from" -> g.v = (IF v = 1 THEN TrueText ELSE FalseText)
+            [] OTHER -> FALSE
+
 GroupOk(ev, g) ==
     CASE ev.e = "cmp" -> CmpGroupOk(ev, g)
       [] ev.e = "cmpn" -> CmpNGroupOk(ev, g)
@@ -119,6 +154,9 @@ GroupOk(ev, g) ==
       [] ev.e = "split" -> SplitGroupOk(ev, g)
       [] ev.e = "tokenize" -> TokenizeGroupOk(ev, g)
       [] ev.e = "replace" -> ReplaceGroupOk(ev, g)
+      [] ev.e = "access" -> AccessGroupOk(ev, g)
+      [] ev.e = "fill" -> FillGroupOk(ev, g)
+      [] ev.e = "tobool" -> BoolGroupOk(ev, g)
       [] OTHER -> FALSE
 
 EventOk(ev) ==
@@ -131,10 +169,11 @@ PropOfOp(e) ==
     ELSE IF e \in {"find", "findlast", "affix"} THEN <<"C07">>
     ELSE IF e \in {"substr", "leftright", "trim", "bafl"} THEN <<"C08">>
     ELSE IF e \in {"split", "tokenize", "replace"} THEN <<"C09">>
+    ELSE IF e \in {"access", "fill", "tobool"} THEN <<"X01">>
     ELSE <<"HARNESS">>
 
 OpNames == {"cmp", "cmpn", "cmpsized", "cmpmatrix", "case", "find", "findlast", "affix", "substr", "leftright",
-            "trim", "bafl", "split", "tokenize", "replace"}
+            "trim", "bafl", "split", "tokenize", "replace", "access", "fill", "tobool"}
 
 TPlatform == Ev.e = "Platform" /\ UNCHANGED <<book, ndec>>
 
